@@ -469,6 +469,8 @@ var (
 	random uint64
 	// randomSites: when non-empty, the random generator only permutes occurrences of these sites
 	randomSites map[string]bool
+	// reverseSites: every occurrence of these sites is reversed (unless the plan says otherwise)
+	reverseSites map[string]bool
 	// Calls counts every Order call (also those with fewer than two keys).
 	Calls int
 )
@@ -480,6 +482,14 @@ func Reset() {
 	plan = map[int]int{}
 	random = 0
 	randomSites = nil
+	reverseSites = nil
+}
+
+func SetReverseSites(sites []string) {
+	reverseSites = map[string]bool{}
+	for _, s := range sites {
+		reverseSites[s] = true
+	}
 }
 
 func SetRandomSites(sites []string) {
@@ -535,6 +545,9 @@ func Order[M ~map[K]V, K comparable, V any](m M, site string) []K {
 	}
 	Log = append(Log, Occ{Site: site, N: len(keys), Keys: desc})
 	code, ok := plan[idx]
+	if !ok && reverseSites[site] {
+		code, ok = -1, true
+	}
 	switch {
 	case ok && code == -1:
 		for i, j := 0, len(keys)-1; i < j; i, j = i+1, j-1 {
@@ -590,6 +603,7 @@ func SchedReset()                    { verifsched.Reset() }
 func SchedSet(occurrence, code int)  { verifsched.Set(occurrence, code) }
 func SchedSetRandom(seed uint64)     { verifsched.SetRandom(seed) }
 func SchedSetRandomSites(s []string) { verifsched.SetRandomSites(s) }
+func SchedSetReverseSites(s []string) { verifsched.SetReverseSites(s) }
 func SchedLog() []SchedOcc           { return append([]SchedOcc(nil), verifsched.Log...) }
 func SchedCalls() int                { return verifsched.Calls }
 `
